@@ -103,7 +103,10 @@ def cases(draw):
             # the same prompt (it starts later, ends earlier and, through a look-ahead, becomes matchable at the same
             # moment): the match that starts first in the stream wins, so these must never fire
             'shadow': draw(st.booleans()), 'codec_errors': codec_errors,
-            'use_poll': draw(st.booleans())}
+            'use_poll': draw(st.booleans()),
+            # bytes mode: the responses are given as ordinary str (accepted and encoded by pexpect); a log file of the
+            # mode's type (BytesIO / StringIO) is passed to run()
+            'str_resp': draw(st.booleans()), 'logfile': draw(st.booleans())}
 
 
 class Responder(object):
@@ -227,22 +230,23 @@ def check_case(case, col=None):
         return
     # ---- event table
     table = []
+    rconv = (lambda x: x) if (case.get('str_resp') and not text_mode) else conv
     if case.get('shadow'):
         for name in case['order']:
             if name in ('EOF', 'TIMEOUT') or len(name) < 3:
                 continue
             inner = re.escape(name[1:-1]) + '(?=' + re.escape(name[-1]) + ')'
-            table.append((conv(inner), (lambda nm: (lambda d: _conv_ret(respond(log, 'str:WRONG', 'shadow:' + nm, d), conv)))(name)))
+            table.append((conv(inner), (lambda nm: (lambda d: _conv_ret(respond(log, 'str:WRONG', 'shadow:' + nm, d), rconv)))(name)))
     for name in case['order']:
         kind, what = case['events'][name]
         key = EOF if name == 'EOF' else TIMEOUT if name == 'TIMEOUT' else conv(name.replace('?', r'\?'))
         if kind == 'str':
-            val = conv(what + '\n')
+            val = rconv(what + '\n')
         elif kind == 'func':
-            val = (lambda nm, wh: (lambda d: _conv_ret(respond(log, wh, nm, d), conv)))(name, what)
+            val = (lambda nm, wh: (lambda d: _conv_ret(respond(log, wh, nm, d), rconv)))(name, what)
         else:
             r = Responder(log, what, name)
-            val = _Method(r, conv).call
+            val = _Method(r, rconv).call
         table.append((key, val))
     events = table if case['as_list'] else dict(table)
     if not table:
@@ -259,6 +263,9 @@ def check_case(case, col=None):
             kw['codec_errors'] = case['codec_errors']
         if case.get('use_poll'):
             kw['use_poll'] = True
+        if case.get('logfile'):
+            import io
+            kw['logfile'] = io.StringIO() if text_mode else io.BytesIO()
         t0 = time.time()
         with guard('run()', allow=()):
             res = pexpect.run(line, timeout=T, withexitstatus=case['withexit'], events=events,
